@@ -279,6 +279,7 @@ def line_source(ctx, f, cfg):
     rs = [b for p, b in f.bodies.items() if "DefaultMetricLogReader::read_metrics" in p and b.kind == "AssocFn" and "bool)" in b.ret_ty]
     TRIM = ("trim_end_matches", "trim_end", "trim", "strip_suffix", "trim_matches", "trim_right", "trim_right_matches")
     for b in rs:
+        b = f.view(b)        # a private "strip the terminator" helper is part of the reader
         sl = Slicer(f, b)
         uses_read_line = any(callee_def(t).rsplit("::", 1)[-1] in ("read_line", "read_until", "read_to_string") for _, t in b.calls())
         for bb, t in b.calls():
